@@ -75,7 +75,16 @@ func genC01(r *Rng, tier string) *Plan {
 	g.Run(DefaultFlags, "gen")
 	extra := r.Intn(4)
 	for i := 0; i < extra; i++ {
-		switch r.Intn(5) {
+		switch r.Intn(6) {
+		case 5: // an issuer is replaced while one of its children has to be created in the same run
+			if len(inner) > 0 {
+				e := Pick(r, inner)
+				ne := editSubject(r, g.ent(e.ID))
+				g.setEnt(ne)
+				g.P.Add(Op{K: "put-ent", Spec: ne, Label: "edit-subject-of-issuer"})
+				c := Pick(r, g.children(g.ent(e.ID)))
+				g.P.Add(Op{K: Pick(r, []string{"del-art", "strip-cert"}), Ent: c.ID, Label: "child-certificate-lost"})
+			}
 		case 0: // regenerate a middle tier: its children must name the new DN
 			if len(inner) > 0 {
 				e := Pick(r, inner)
